@@ -33,6 +33,10 @@ def generate(rng, tier, T):
   d0 = pick(rng, [6, 7, 8])
   if same:
     tree = [[d0, d0]] if rng.random() < 0.5 else [[d0, d0], [d0, d0]]
+    if rng.random() < 0.35:
+      # rank-3 tensor, not merged: sketches of axes 0, 1 and 2
+      d0 = pick(rng, [6, 7])
+      tree = [[d0, d0, d0]]
   else:
     tree = [[d0, pick(rng, [2, 3, 4])], [pick(rng, [5, 6]), 2]]
     if rng.random() < 0.5:
